@@ -209,8 +209,16 @@ def should_build_facts(chk):
                 bad = 'should_build passes on %s, expected %s' % (fmt_verdict(rv), fmt_verdict(want))
         if bad:
             m = model_of(eng, w, R, ids)
-            return {'role': 'should_build:' + bad.split(' ')[0] + bad.split(' ')[1], 'kind': 'none', 'what': 'ifchange::should_build: ' + bad,
-                    'witness': {'line': to_dbline(m, ids[0]), 'model': m}}
+            c = {'role': 'should_build:' + bad.split(' ')[0] + bad.split(' ')[1], 'kind': 'none', 'what': 'ifchange::should_build: ' + bad,
+                 'witness': {'line': to_dbline(m, ids[0], 'materialise'), 'model': m}}
+            if failed_now:
+                # replay: materialise the state, then run the real `redo-ifchange <target>` as a sub-redo of that run: it must
+                # refuse with exit status 32 and must not run the target's script
+                c['kind'] = 'subredo'
+                c['target_name'] = bytes(w.files[ids[0]]['name']).decode('latin-1')
+                c['runid'] = m['runid']
+                c['expect_rc'] = 32
+            return c
         return None
 
     chk.explore('ifchange::should_build', run, judge)
